@@ -2,7 +2,7 @@
    [part_all p] = every message the partition stores (log files then buffer, segment by segment).
    FULL statement (history level, includes the cursor after restart/retention; see DESIGN.md, proved
    in the refinement development when present): *)
-From IggyV Require Import Base.Tactics Base.ListX Model.Part Model.PartSpec Proofs.PartBasics Proofs.PartHistory.
+From IggyV Require Import Base.Tactics Base.ListX Model.Part Model.PartSpec Proofs.PartBasics Proofs.PartHistory Proofs.PartCounts Proofs.CacheHistory Proofs.OffsetsHistory Proofs.ReadExact Proofs.ReadPart Proofs.ReadHistory Proofs.ExpiryBasics Proofs.ExpiryHistory.
 Open Scope N_scope.
 
 Definition C01_full : Prop :=
@@ -67,6 +67,18 @@ Proof.
   rewrite forallb_forall in Hall. apply N.leb_le. apply Hall. exact Hq.
 Qed.
 
+(* PROVED, history level WITH message expiry: the same statement for every operation list in which a message expiry may be
+   configured and changed at will and expiry-based retention runs at arbitrary times (Proofs/ExpiryHistory.v).  Side conditions:
+   segment size > 0, offsets below 2^32, log files below 2^32 bytes, and send timestamps that are non-zero and never go
+   backwards (the times at which maintenance passes run are arbitrary). *)
+Theorem C01_history_expiry_partial : forall ops c t0, 0 < c_seg c -> times_ok 0 ops -> Forall bounds_ok (prun_states (c, part_new c t0) ops) ->
+  let p := snd (pfinal (c, part_new c t0) ops) in
+  contig (first_start p) (part_all p) /\ NoDup (map m_off (part_all p)) /\ abase p = first_start p + nlen (part_all p).
+Proof.
+  intros ops c t0 Hseg Ht Hb. cbn zeta. destruct (history_E0 ops c t0 Hseg Ht Hb) as [HE _]. pose proof (E_J _ _ _ HE) as HJ.
+  split; [apply (j_contig _ HJ) | split; [apply (contig_nodup _ _ (j_contig _ HJ)) | apply (j_cursor _ HJ)]].
+Qed.
+
 Print Assumptions C01_append.
 Print Assumptions C01_flush.
 Print Assumptions C01_save.
@@ -75,3 +87,4 @@ Print Assumptions C01_restart_messages.
 Print Assumptions C01_purge.
 Print Assumptions C01_history_partial.
 Print Assumptions C01_history_nonvacuous.
+Print Assumptions C01_history_expiry_partial.
